@@ -65,25 +65,38 @@ def model_rx(comp, prestate, frames):
     return events, cur
 
 
-def pre_rx(comp: int, prestate: int, masked: bool, frames: List[Tuple[int, bool, bool, bytes]]) -> bool:
+def mkbytes(n, bs):
+    """bytes of CONCRETE length n (decided by branching) whose contents are the symbolic ints bs[:n]."""
+    cn = R.pick(n, len(bs) + 1)
+    return bytes(bs[:cn])
+
+
+def decode_frames(frames):
+    return [(k, fin, rsv1, mkbytes(n, [b0, b1])) for k, fin, rsv1, n, b0, b1 in frames]
+
+
+def pre_rx(comp: int, prestate: int, frames: List[Tuple[int, bool, bool, int, int, int]]) -> bool:
     if not (0 <= comp <= 2 and 0 <= prestate <= 3 and len(frames) <= P.N):
         return False
     if prestate == 3 and comp == 0:
         return False
-    if prestate == 1 and comp == 0:
+    if prestate == 1 and comp != 1:
         return False
     if not in_shard(prestate + 4 * comp):
         return False
-    for kind, fin, rsv1, payload in frames:
-        if not (0 <= kind <= 4 and len(payload) <= P.L and ascii_only(payload)):
+    for kind, fin, rsv1, n, b0, b1 in frames:
+        if not (0 <= b0 < 128 and 0 <= b1 < 128):
             return False
-    return model_rx(comp, prestate, frames) is not None
+    for kind, fin, rsv1, n, b0, b1 in frames:
+        if not (0 <= kind <= 4 and 0 <= n <= P.L):
+            return False
+    return model_rx(comp, prestate, decode_frames(frames)) is not None
 
 
 @harness(
     pre=pre_rx,
-    quick=dict(N=2, L=2, timeout=150, reach_timeout=60),
-    thorough=dict(N=3, L=2, timeout=1400, reach_timeout=120),
+    quick=dict(N=2, L=1, timeout=150, reach_timeout=60),
+    thorough=dict(N=3, L=1, timeout=1400, reach_timeout=120),
     nshards=dict(quick=12, thorough=12),
     reach=["ping_between_compressed_fragments", "fragmented_delivered", "compressed_delivered"],
     units=["websocket.WebSocketProtocol13._receive_frame_loop", "websocket.WebSocketProtocol13._receive_frame",
@@ -103,10 +116,12 @@ def pre_rx(comp: int, prestate: int, masked: bool, frames: List[Tuple[int, bool,
            "text payload bytes < 0x80 (UTF-8 validity is C15)"],
     outside=["more than N symbolic frames after the pre-state", "payloads longer than L bytes per frame in this "
              "harness (length encodings are h_rx_len + the z3 extra)", "real deflate / window bits / levels",
-             "close frames (C16)", "same mask/no-mask choice for all frames of one sequence"],
+             "close frames (C16)", "masked frames / long length forms in multi-frame sequences (single-frame: h_rx_len)"],
 )
-def h_rx(comp: int, prestate: int, masked: bool, frames: List[Tuple[int, bool, bool, bytes]]):
+def h_rx(comp: int, prestate: int, frames: List[Tuple[int, bool, bool, int, int, int]]):
     R.apply_shims(symbolic_mask=True)
+    masked = False
+    frames = decode_frames(frames)
     with install() as env:
         st = FakeStream(env.loop)
         p, rec = R.make_proto(env, st, comp=comp)
@@ -165,6 +180,7 @@ def h_rx(comp: int, prestate: int, masked: bool, frames: List[Tuple[int, bool, b
             else:
                 exp_pongs.append(ev[1])
         exp_msgs.append(b"END")
+        assert not task.done(), "receive loop ended on a valid sequence: %r" % (task,)
         assert not st.closed(), "valid frame sequence but the connection was aborted"
         assert rec.msgs == exp_msgs, "delivered messages %r != sent messages %r" % (rec.msgs, exp_msgs)
         assert rec.pings == exp_pings and rec.pongs == exp_pongs, "control frame payloads differ"
@@ -173,3 +189,489 @@ def h_rx(comp: int, prestate: int, masked: bool, frames: List[Tuple[int, bool, b
             "every ping must be answered by one pong with the same payload, in order: %r" % (sent,)
         assert not task.done() and not rec.closes, "receive loop ended on a valid sequence"
         assert not env.v.exc_contexts and not rec.logged, "exception escaped: %r %r" % (env.v.exc_contexts, rec.logged)
+
+
+# ----------------------------------------------------------------------------------------------
+# One symbolic frame with every encoding dimension (mask bit, symbolic 4-byte mask, 7/16/64-bit
+# length form, payload of 0..L symbolic bytes) from each pre-state.
+
+MASKS = [b"\x00\x00\x00\x00", b"\xff\x80\x01\x7f", b"\x12\x34\x56\x78"]
+
+
+def pre_rx_len(comp: int, prestate: int, kind: int, fin: bool, rsv1: bool, mi: int, form: int,
+               n: int, pb: Tuple[int, int, int]) -> bool:
+    # data ranges first (each rejection is one path, not one per discrete combination)
+    for i in range(3):
+        if not (0 <= pb[i] < 128):
+            return False
+    if not (0 <= comp <= 1 and 0 <= prestate <= 3 and 0 <= kind <= 4 and 0 <= form <= 2 and 0 <= n <= P.L
+            and 0 <= mi <= 3):
+        return False
+    if prestate in (1, 3) and comp == 0:
+        return False
+    if not in_shard(form + 3 * prestate):
+        return False
+    if mi > 0 and pb != (97, 98, 99):
+        return False            # masked frames: concrete payload (symbolic XOR explodes in CrossHair)
+    if kind >= K_PING and form != 0:
+        return False            # RFC 6455 5.5: control frames carry at most 125 bytes, hence the 7-bit form
+    return model_rx(comp, prestate, [(kind, fin, rsv1, mkbytes(n, list(pb)))]) is not None
+
+
+@harness(
+    pre=pre_rx_len,
+    quick=dict(L=3, timeout=120, reach_timeout=60),
+    thorough=dict(L=3, timeout=900, reach_timeout=120),
+    nshards=dict(quick=12, thorough=12),
+    reach=["masked_64bit_form", "unmasked_16bit_form"],
+    units=["websocket.WebSocketProtocol13._receive_frame", "websocket.WebSocketProtocol13._handle_message",
+           "websocket._PerMessageDeflateDecompressor.decompress"],
+    stubs=["as h_rx, but the real tornado.util._websocket_mask_python; unmasked frames carry symbolic payload bytes, "
+           "masked frames a concrete payload and one of 3 pooled masks chosen by symbolic index (XOR of two symbolic "
+           "ints explodes in CrossHair; the masking algebra is C18)"],
+    outside=["payload longer than L bytes (length decoding for every n < 2^63: extra `lenfield`)"],
+)
+def h_rx_len(comp: int, prestate: int, kind: int, fin: bool, rsv1: bool, mi: int, form: int,
+             n: int, pb: Tuple[int, int, int]):
+    R.apply_shims(symbolic_mask=False)
+    cmi = R.pick(mi, 4)
+    masked = cmi > 0
+    mask = MASKS[cmi - 1] if masked else b"\x00\x00\x00\x00"
+    payload = b"abc"[:R.pick(n, 4)] if masked else mkbytes(n, list(pb))
+    with install() as env:
+        st = FakeStream(env.loop)
+        p, rec = R.make_proto(env, st, comp=comp)
+        task = env.spawn(p._receive_frame_loop())
+        exp_msgs = []
+        nz = 0
+        if prestate == 1:
+            st.feed(R.frame(True, 4, 2, R.z_compress(0, b"pre")))
+            exp_msgs.append(b"pre")
+            nz = 1
+        elif prestate == 2:
+            st.feed(R.frame(False, 0, 1, b"a", masked=True))
+        elif prestate == 3:
+            st.feed(R.frame(False, 4, 2, R.z_compress(0, b"b"), masked=True))
+            nz = 1
+        env.run_ready()
+        events, cur = model_rx(comp, prestate, [(kind, fin, rsv1, payload)])
+        pl = payload
+        if kind <= K_BIN and rsv1:
+            pl = R.z_compress(nz, payload)
+        cform = R.pick(form, 3)
+        if masked and cform == 2:
+            reached("masked_64bit_form")
+        if not masked and cform == 1:
+            reached("unmasked_16bit_form")
+        wire = R.frame(fin, 4 if (rsv1 and kind <= K_BIN) else 0, OPC[kind], pl, masked=masked, form=cform,
+                       mask=mask)
+        if cur is not None:
+            wire += R.frame(True, 0, 0, b"!")
+            cur[2].append(b"!")
+            events.append(("msg", cur))
+        wire += R.frame(True, 0, 2, b"END")
+        st.feed(wire)
+        env.run_ready()
+        exp_pings, exp_pongs = [], []
+        for ev in events:
+            if ev[0] == "msg":
+                opcode, compressed, frags = ev[1]
+                data = b"".join(frags)
+                exp_msgs.append(data.decode("utf-8") if opcode == 1 else data)
+            elif ev[0] == "ping":
+                exp_pings.append(ev[1])
+            else:
+                exp_pongs.append(ev[1])
+        exp_msgs.append(b"END")
+        assert not task.done() and not st.closed(), "valid frame but the connection was aborted"
+        assert rec.msgs == exp_msgs, "delivered messages %r != sent messages %r" % (rec.msgs, exp_msgs)
+        assert rec.pings == exp_pings and rec.pongs == exp_pongs, "control frame payloads differ"
+        sent = R.parse_frames(st.wire())
+        assert [(f[2], f[4]) for f in sent] == [(10, d) for d in exp_pings], "pong must echo the ping payload"
+        assert not env.v.exc_contexts and not rec.logged
+
+
+# ----------------------------------------------------------------------------------------------
+# Send path + round trip: real write_message / write_ping -> wire -> reference parser (+ reference
+# inverse of the compression stand-in) == the messages; then the same wire into a second REAL protocol
+# instance configured as the peer -> its application receives exactly the same messages.
+
+def pre_tx(comp: int, mask_out: bool, mi: int, uni: str, msgs: List[Tuple[int, int, int, int]]) -> bool:
+    if not (0 <= comp <= 3 and len(msgs) <= P.N):
+        return False
+    if not in_shard(comp + 4 * (1 if mask_out else 0)):
+        return False
+    if mask_out:
+        # masked direction: pooled mask, concrete payload bytes (uni/b0/b1 unused and unconstrained)
+        if not 0 <= mi <= 2:
+            return False
+    else:
+        for k, n, b0, b1 in msgs:
+            if not (0 <= b0 < 128 and 0 <= b1 < 128):
+                return False
+        if len(uni) > 1:
+            return False
+        for ch in uni:
+            if 0xD800 <= ord(ch) <= 0xDFFF:
+                return False         # lone surrogates are not encodable text
+    for k, n, b0, b1 in msgs:
+        if not (0 <= k <= 2 and 0 <= n <= P.L):
+            return False
+    return True
+
+
+@harness(
+    pre=pre_tx,
+    quick=dict(N=2, L=1, timeout=120, reach_timeout=60),
+    thorough=dict(N=3, L=2, timeout=1200, reach_timeout=120),
+    nshards=dict(quick=8, thorough=8),
+    reach=["two_compressed_persistent", "masked_text_roundtrip", "non_ascii_text"],
+    units=["websocket.WebSocketProtocol13.write_message", "websocket.WebSocketProtocol13._write_frame",
+           "websocket.WebSocketProtocol13.write_ping", "websocket._PerMessageDeflateCompressor.compress",
+           "websocket.WebSocketProtocol13._receive_frame", "websocket.WebSocketProtocol13._handle_message"],
+    stubs=["as h_rx_len; os.urandom inside tornado.websocket returns one of 3 pooled masks (symbolic index); in the "
+           "masking direction message bytes are concrete with symbolic length, in the unmasked direction message "
+           "bytes are symbolic and the first text message additionally ends in one arbitrary symbolic code point",
+           "comp: 0 off, 1 context takeover both ways, 2 receiver-side no_context_takeover for the peer, "
+           "3 no_context_takeover both ways; the receiving protocol is created with the mirrored agreement"],
+    outside=["messages longer than L+1 code points/bytes (length field: extra `lenfield`)", "dict messages (json)"],
+)
+def h_tx(comp: int, mask_out: bool, mi: int, uni: str, msgs: List[Tuple[int, int, int, int]]):
+    mask = MASKS[R.pick(mi, 3)] if mask_out else MASKS[0]
+    if mask_out:
+        uni = ""
+    R.apply_shims(symbolic_mask=False, urandom=mask)
+    with install() as env:
+        st = FakeStream(env.loop)
+        side = "client" if mask_out else "server"
+        tx, _ = R.make_proto(env, st, comp=comp, mask_outgoing=mask_out, side=side)
+        sent_msgs, sent_pings = [], []
+        first_text = True
+        for k, n, b0, b1 in msgs:
+            b = b"ab"[:R.pick(n, 3)] if mask_out else mkbytes(n, [b0, b1])
+            if k == 0:
+                s = b.decode("utf-8")
+                if first_text:
+                    s = s + uni
+                    first_text = False
+                    if len(uni) == 1 and ord(uni) > 0x7F:
+                        reached("non_ascii_text")
+                tx.write_message(s)
+                sent_msgs.append((1, s))
+            elif k == 1:
+                tx.write_message(b, binary=True)
+                sent_msgs.append((2, b))
+            else:
+                tx.write_ping(b)
+                sent_pings.append(b)
+            env.run_ready()
+        wire = st.wire()
+        frames = R.parse_frames(wire)
+        # ---- reference decoding of the wire
+        persistent_tx = comp == 1 or comp == 2      # sender keeps its context unless <side>_no_context_takeover
+        nz = 0
+        got_msgs, got_pings = [], []
+        for fin, rsv, opcode, masked, payload, minimal in frames:
+            assert fin, "write_message / write_ping must produce unfragmented frames"
+            assert masked == mask_out, "mask bit must follow the direction (client masks, server does not)"
+            assert minimal, "length must use the minimal encoding"
+            if opcode == 9:
+                assert rsv == 0
+                got_pings.append(payload)
+                continue
+            assert opcode in (1, 2), "unexpected opcode %r" % opcode
+            if comp:
+                assert rsv == 4, "compressed message must carry RSV1 only"
+                assert len(payload) >= 2 and payload[0] == 0x30 + nz % 8 and payload[1] == 0, \
+                    "compression context misuse (message #%d)" % nz
+                if persistent_tx:
+                    if nz == 1:
+                        reached("two_compressed_persistent")
+                    nz += 1
+                payload = payload[2:]
+            else:
+                assert rsv == 0, "RSV bits without a negotiated extension"
+            got_msgs.append((opcode, payload.decode("utf-8") if opcode == 1 else payload))
+        assert got_msgs == sent_msgs, "wire carries %r, application sent %r" % (got_msgs, sent_msgs)
+        assert got_pings == sent_pings
+        # ---- round trip through the real receiver (mirrored agreement)
+        st2 = FakeStream(env.loop)
+        rcomp = [0, 1, 1, 2][R.pick(comp, 4)]
+        rx, rec = R.make_proto(env, st2, comp=rcomp, side="server" if mask_out else "client")
+        task = env.spawn(rx._receive_frame_loop())
+        st2.feed(wire)
+        env.run_ready()
+        if mask_out and len(sent_msgs) > 0 and sent_msgs[0][0] == 1 and len(sent_msgs[0][1]) > 0:
+            reached("masked_text_roundtrip")
+        assert rec.msgs == [m for _, m in sent_msgs], "peer received %r, sent %r" % (rec.msgs, sent_msgs)
+        assert rec.pings == sent_pings
+        assert not st2.closed() and not task.done() and not env.v.exc_contexts and not rec.logged
+
+
+# ----------------------------------------------------------------------------------------------
+# EXTRA: length field, every n in [0, 2^63): z3 obligations generated from the live AST.
+
+def _extra_lenfield(tier, seed):
+    import ast
+    import inspect
+    import textwrap
+    import time
+    import z3
+    import tornado.websocket as W
+
+    t0 = time.time()
+    SZ = {"B": 1, "H": 2, "Q": 8}
+
+    def fn_ast(f):
+        return ast.parse(textwrap.dedent(inspect.getsource(f))).body[0]
+
+    def fmt_sizes(fmt):
+        assert fmt[0] in "!>" or set(fmt) <= {"B"}, "unexpected byte order in %r" % fmt
+        return [SZ[c] for c in fmt.lstrip("!>")]
+
+    def is_struct_call(node, name):
+        return (isinstance(node, ast.Call) and isinstance(node.func, ast.Attribute) and node.func.attr == name
+                and isinstance(node.func.value, ast.Name) and node.func.value.id == "struct")
+
+    def ev(node, envd):
+        """AST expression -> z3 BitVec(64) / Bool."""
+        if isinstance(node, ast.Constant) and isinstance(node.value, int):
+            return z3.BitVecVal(node.value, 64)
+        if isinstance(node, ast.Name):
+            return envd[node.id]
+        if isinstance(node, ast.BinOp):
+            a, b = ev(node.left, envd), ev(node.right, envd)
+            if isinstance(node.op, ast.BitOr):
+                return a | b
+            if isinstance(node.op, ast.BitAnd):
+                return a & b
+            raise NotImplementedError(ast.dump(node.op))
+        if isinstance(node, ast.Compare) and len(node.ops) == 1:
+            a, b = ev(node.left, envd), ev(node.comparators[0], envd)
+            op = node.ops[0]
+            return {ast.Lt: z3.ULT, ast.LtE: z3.ULE, ast.Gt: z3.UGT, ast.GtE: z3.UGE,
+                    ast.Eq: lambda x, y: x == y}[type(op)](a, b)
+        if isinstance(node, ast.Call) and isinstance(node.func, ast.Name) and node.func.id == "bool":
+            return ev(node.args[0], envd) != z3.BitVecVal(0, 64)
+        raise NotImplementedError(ast.dump(node))
+
+    # ---------------- encoder: _write_frame
+    wf = fn_ast(W.WebSocketProtocol13._write_frame)
+    mask_vals = None
+    enc_chain = None
+    for node in ast.walk(wf):
+        if isinstance(node, ast.If):
+            t = node.test
+            if (isinstance(t, ast.Attribute) and t.attr == "mask_outgoing" and mask_vals is None
+                    and isinstance(node.body[0], ast.Assign) and node.body[0].targets[0].id == "mask_bit"):
+                mask_vals = [node.body[0].value.value, node.orelse[0].value.value]
+            if (isinstance(t, ast.Compare) and isinstance(t.left, ast.Name) and t.left.id == "data_len"
+                    and enc_chain is None and any(isinstance(x, ast.AugAssign) for x in node.body)):
+                enc_chain = node
+    assert mask_vals is not None and enc_chain is not None, "could not locate the length encoder in _write_frame"
+
+    def pack_of(stmts):
+        for s_ in stmts:
+            if isinstance(s_, ast.AugAssign) and is_struct_call(s_.value, "pack"):
+                return s_.value.args[0].value, s_.value.args[1:]
+        raise AssertionError("no struct.pack in branch")
+
+    enc_branches = []       # (condition ast list [(test, polarity)], fmt, arg asts)
+    conds = []
+    node = enc_chain
+    while True:
+        fmt, args = pack_of(node.body)
+        enc_branches.append((conds + [(node.test, True)], fmt, args))
+        conds = conds + [(node.test, False)]
+        if len(node.orelse) == 1 and isinstance(node.orelse[0], ast.If):
+            node = node.orelse[0]
+        else:
+            fmt, args = pack_of(node.orelse)
+            enc_branches.append((conds, fmt, args))
+            break
+
+    # ---------------- decoder: _receive_frame
+    rf = fn_ast(W.WebSocketProtocol13._receive_frame)
+    dec_masked = dec_field = dec_chain = None
+    for node in rf.body:
+        if isinstance(node, ast.Assign) and isinstance(node.targets[0], ast.Name):
+            if node.targets[0].id == "is_masked":
+                dec_masked = node.value
+            if node.targets[0].id == "payloadlen" and dec_field is None:
+                dec_field = node.value
+        if (isinstance(node, ast.If) and isinstance(node.test, ast.Compare) and isinstance(node.test.left, ast.Name)
+                and node.test.left.id == "payloadlen" and dec_chain is None):
+            dec_chain = node
+    assert dec_masked is not None and dec_field is not None and dec_chain is not None, \
+        "could not locate the length decoder in _receive_frame"
+    dec_branches = []       # (conds, nread or 0, fmt or None)
+    conds = []
+    node = dec_chain
+    while node is not None:
+        nread, fmt = 0, None
+        for s_ in node.body:
+            for sub in ast.walk(s_):
+                if (isinstance(sub, ast.Call) and isinstance(sub.func, ast.Attribute)
+                        and sub.func.attr == "_read_bytes"):
+                    nread = sub.args[0].value
+                if is_struct_call(sub, "unpack"):
+                    fmt = sub.args[0].value
+        dec_branches.append((conds + [(node.test, True)], nread, fmt))
+        conds = conds + [(node.test, False)]
+        if len(node.orelse) == 1 and isinstance(node.orelse[0], ast.If):
+            node = node.orelse[0]
+        else:
+            assert not node.orelse, "unexpected else branch in the length decoder"
+            node = None
+
+    def conj(cl, envd):
+        out = []
+        for test, pol in cl:
+            c = ev(test, envd)
+            out.append(c if pol else z3.Not(c))
+        return z3.And(out) if out else z3.BoolVal(True)
+
+    n = z3.BitVec("n", 64)
+    queries = 0
+    obligations = 0
+    discharged = 0
+    violations = []
+    samples = []
+    solver_s = 0.0
+
+    def encode_sym(nv, mb):
+        """list of (path condition, [byte exprs], fits-condition) per encoder branch."""
+        out = []
+        envd = {"data_len": nv, "mask_bit": z3.BitVecVal(mb, 64)}
+        for cl, fmt, args in enc_branches:
+            sizes = fmt_sizes(fmt)
+            assert len(sizes) == len(args)
+            bs = []
+            fits = []
+            for sz, a in zip(sizes, args):
+                v = ev(a, envd)
+                if sz < 8:
+                    fits.append(z3.ULT(v, z3.BitVecVal(1 << (8 * sz), 64)))
+                for k in range(sz):
+                    sh = 8 * (sz - 1 - k)
+                    bs.append(z3.Extract(sh + 7, sh, v))
+            out.append((conj(cl, envd), bs, z3.And(fits) if fits else z3.BoolVal(True)))
+        return out
+
+    def decode_sym(bs):
+        """(decoded length, is_masked, consumed extension bytes as python int per branch list)"""
+        b1 = z3.ZeroExt(56, bs[0])
+        envd = {"mask_payloadlen": b1}
+        field = ev(dec_field, envd)
+        masked = ev(dec_masked, envd)
+        envd["payloadlen"] = field
+        res = []
+        for cl, nread, fmt in dec_branches:
+            c = conj(cl, envd)
+            if fmt is None:
+                res.append((c, field, 0))
+            else:
+                sizes = fmt_sizes(fmt)
+                assert len(sizes) == 1 and sizes[0] == nread, "read size and unpack format disagree"
+                if len(bs) - 1 < nread:
+                    res.append((c, None, nread))
+                else:
+                    v = z3.Concat(*bs[1:1 + nread]) if nread > 1 else bs[1]
+                    res.append((c, z3.ZeroExt(64 - 8 * nread, v), nread))
+        return res, masked
+
+    def check(assumps, goal, what):
+        nonlocal queries, obligations, discharged, solver_s
+        obligations += 1
+        s = z3.Solver()
+        s.add(*assumps)
+        s.add(z3.Not(goal))
+        t = time.time()
+        r = s.check()
+        solver_s += time.time() - t
+        queries += 1
+        if r == z3.unsat:
+            discharged += 1
+            return None
+        if r == z3.sat:
+            return s.model()
+        raise RuntimeError("solver returned unknown for " + what)
+
+    dom = z3.ULT(n, z3.BitVecVal(1 << 63, 64))
+    rfc_form = [z3.ULE(n, 125), z3.And(z3.UGE(n, 126), z3.ULE(n, 65535)), z3.UGE(n, 65536)]
+    rfc_ext = [0, 2, 8]
+    for mb in mask_vals:
+        encs = encode_sym(n, mb)
+        assert len(encs) == 3, "expected three length forms"
+        for i, (c, bs, fits) in enumerate(encs):
+            m = check([dom, c], fits, "fits")
+            if m is not None:
+                violations.append(dict(detail="struct.pack field overflow in length branch %d" % i,
+                                       input=dict(n=m[n].as_long(), mask_bit=mb), finding_key="len_overflow"))
+            # RFC 6455 5.2 minimal form: branch i is taken exactly for the RFC's range i
+            m = check([dom], c == rfc_form[i], "form")
+            if m is not None:
+                violations.append(dict(detail="length form %d not chosen exactly on the RFC range" % i,
+                                       input=dict(n=m[n].as_long(), mask_bit=mb), finding_key="len_form"))
+            assert len(bs) - 1 == rfc_ext[i], "branch %d emits %d extension bytes" % (i, len(bs) - 1)
+            decs, masked = decode_sym(bs)
+            # exactly one decoder branch fires, it consumes exactly the emitted bytes and returns n
+            goals = []
+            for dc, val, nread in decs:
+                if val is None or nread != len(bs) - 1:
+                    goals.append(z3.Not(dc))
+                else:
+                    goals.append(z3.Implies(dc, val == n))
+            goals.append(z3.Or([dc for dc, val, nread in decs if val is not None and nread == len(bs) - 1]
+                               or [z3.BoolVal(False)]))
+            goals.append(masked == z3.BoolVal(mb != 0))
+            m = check([dom, c], z3.And(goals), "roundtrip")
+            if m is not None:
+                violations.append(dict(detail="decode(encode(n)) != n / mask bit lost in branch %d" % i,
+                                       input=dict(n=m[n].as_long(), mask_bit=mb), finding_key="len_roundtrip"))
+        # exhaustive + exclusive branch conditions
+        m = check([dom], z3.PbEq([(c, 1) for c, _, _ in encs], 1), "partition")
+        if m is not None:
+            violations.append(dict(detail="encoder branches not a partition", input=dict(n=m[n].as_long())))
+
+    # ---------------- translator validation against the real functions on concrete lengths
+    from vp.env import install as _install
+    from vp.fakestream import FakeStream as _FS
+    for mb in mask_vals:
+        for cn in (0, 1, 125, 126, 127, 65535, 65536, 70001):
+            with _install() as env:
+                st = _FS(env.loop)
+                rec = R.Rec()
+                pr = W.WebSocketProtocol13(rec, bool(mb), W._WebSocketParams(max_message_size=1 << 30))
+                pr.stream = st
+                pr._write_frame(True, 2, b"\x07" * cn)
+                real = st.wire()
+                encs = encode_sym(z3.BitVecVal(cn, 64), mb)
+                mine = None
+                for c, bs, fits in encs:
+                    if z3.is_true(z3.simplify(c)):
+                        assert mine is None
+                        mine = bytes(z3.simplify(b).as_long() for b in bs)
+                assert mine is not None and real[1:1 + len(mine)] == mine, \
+                    "translator disagrees with real _write_frame for n=%d: %r vs %r" % (cn, mine, real[:10])
+                # and the real decoder on the real encoder's output
+                st2 = _FS(env.loop)
+                rec2 = R.Rec()
+                pr2 = W.WebSocketProtocol13(rec2, False, W._WebSocketParams(max_message_size=1 << 30))
+                pr2.stream = st2
+                env.spawn(pr2._receive_frame_loop())
+                st2.feed(real)
+                env.run_ready()
+                assert rec2.msgs == [b"\x07" * cn], "real decode of real encode failed for n=%d" % cn
+                samples.append(dict(n=cn, mask_bit=mb, header=real[:1 + len(mine)].hex()))
+    status = "VIOLATION" if violations else ("PROVED" if discharged == obligations else "BOUNDED")
+    return dict(status=status, obligations=obligations, discharged=discharged, queries=queries,
+                solver_s=round(solver_s, 3), samples=samples[:6], violations=violations,
+                trusted_base=["z3", "ast/inspect extraction of the if-chains on data_len (encoder) and payloadlen "
+                              "(decoder)", "struct big-endian B/H/Q semantics modelled as Extract/Concat"],
+                assumptions=["n ranges over [0, 2^63) as a 64-bit vector; mask_bit over the two constants assigned in "
+                             "_write_frame", "payload bytes themselves are not part of this obligation"],
+                wall=round(time.time() - t0, 2))
+
+
+EXTRAS = {"lenfield": dict(fn=_extra_lenfield, wall=120)}
